@@ -45,6 +45,10 @@ def generate(tier, seed, work, stats):
     cases += c02.random_pairs(1000 if tier == "quick" else 30000, seed + 3)
     for c in c02.random_pairs(1500 if tier == "quick" else 30000, seed + 33):       # names that contain the library's separators
         cases.append(dict(c, spool="merged", family="random-merged-names"))
+    for c in c02.random_pairs(1500 if tier == "quick" else 30000, seed + 34, nq=5, nt=6):       # pair names that can be split in two ways
+        cases.append(dict(c, spool="joined", family="random-joined-names"))
+    for c in c02.random_pairs(500 if tier == "quick" else 10000, seed + 35):       # 0 and "0" are different states
+        cases.append(dict(c, spool="mixed", family="random-mixed-names"))
     # P3: the calls the repository's own tests make, re-judged by the trace specification
     cases += [c for c in core.record_tests(["/repo/pyformlang"], work, {"get_intersection", "get_complement", "get_difference", "reverse", "union", "concatenate", "kleene_star"}, stats) if "A" in c["recorded"][0]]
     return cases
